@@ -136,6 +136,7 @@ func validVariants(f string) []string {
 	return []string{
 		"{ " + f + " }", "{" + f + "}", "query { " + f + " }", "query Q { " + f + " }",
 		"# café \"quoted\" \\ &=+%\n{ " + f + " }", "{\n\t" + f + "\n}", "query Q{" + f + " " + f + "}",
+		" { " + f + " }", "{ " + f + " }\n", "\t{ " + f + " } ",
 	}
 }
 
